@@ -21,7 +21,7 @@ from tools.gen import luagen
 LEVEL = "proof"
 MANIFEST = dict(
     category="proof",
-    text="Lean 4 theorems (39, no hypotheses on size) over a hand model of wrapl.Wrapl.wrap_function/do_function/wrap_functions "
+    text="Lean 4 theorems (45, no hypotheses on size) over a hand model of wrapl.Wrapl.wrap_function/do_function/wrap_functions "
          "(all_calls = one call per overload and per omitted-default prefix, by_count, the emitted switch/if-chain with its lua_type "
          "tests, pop indices, object index, result counts, luaL_Reg tables) and of what the emitted skeleton does on a Lua stack. "
          "dispatch_correct: for EVERY Lua name (one signature or many; free function, constructor, method, destructor), every "
@@ -33,6 +33,11 @@ MANIFEST = dict(
          "called and no fall-through to a later overload (wrong_class_argument_is_an_error); whether a parameter is defaulted "
          "does not depend on the default's value (hasInit; 0, 0.0, false and \"\" are generated). Registration: every ast.name is gathered into one group/C function/table entry (groups_*), a Lua name reaches "
          "its own C function iff names in the table are distinct, otherwise the later entry wins (lookupReg_*, classRegs_reaches); "
+         "namespace tree (pre-order with depths and wrap.lua flags; the model, not the harness, decides which scopes are visited): the "
+         "visited scopes depend on depths and flags only, never on what a scope contains (visit_independent_of_content), with all "
+         "namespaces on every scope at every depth is visited (visit_all) and every function group and constructor group at any "
+         "depth is in the module table and its class's metatable is created (every_function_registered, "
+         "every_constructor_registered); a switched-off namespace hides exactly its subtree; "
          "metatable identity by NAME per site (luaL_newmetatable in luaopen for every wrapped class incl. classes with an empty "
          "method table, luaL_getmetatable in constructors, luaL_checkudata of the object and of class-pointer arguments): one name "
          "per class at all sites, so a constructed object is accepted by its own methods and wherever its class is an argument, "
@@ -55,7 +60,8 @@ MANIFEST = dict(
          "at every position, default values over zero/non-zero/empty for every kind, class-pointer arguments of the own and of "
          "another wrapped class (right class, other class, userdata without metatable), user-chosen metatable names (format "
          "field, class-level and library-level LUA_metadata_template), classes that register no method (constructors only) and "
-         "are passed as arguments, overloads incl. same-tag and "
+         "are passed as arguments, namespace trees up to depth 4 whose nodes hold functions / only classes / only namespaces / "
+         "nothing / are switched off, libraries without free functions, classes inside namespaces, overloads incl. same-tag and "
          "void/non-void mixes, classes with overloaded "
          "constructors, const/static methods, a namespace. Trusted / modelled-not-verified: Lean kernel; the hand model; the "
          "emulator (written from the Lua 5.3 manual; no real Lua headers or interpreter installed); g++ (which C++ overload the "
@@ -105,6 +111,13 @@ THEOREMS = {
         "Shroud.LuaDispatch.constructed_rejected_by_other_name",
         "Shroud.LuaDispatch.uncreated_name_accepted_nowhere",
         "Shroud.LuaDispatch.method_on_constructed_named",
+        # the namespace tree: which scopes are visited, registration completeness at any depth
+        "Shroud.LuaDispatch.visit_independent_of_content",
+        "Shroud.LuaDispatch.visit_all",
+        "Shroud.LuaDispatch.mem_moduleRegs_fn",
+        "Shroud.LuaDispatch.mem_moduleRegs_ctor",
+        "Shroud.LuaDispatch.every_function_registered",
+        "Shroud.LuaDispatch.every_constructor_registered",
         # historical negation witnesses (bodies written before the fix: commits)
         "Shroud.LuaDispatch.single_call_unchecked_before_fix",
         "Shroud.LuaDispatch.single_call_statement_false_before_fix",
@@ -369,19 +382,20 @@ def registration_request(jpath):
 
     scopes = []
 
-    def walk(node):
+    def walk(node, depth):
+        # the whole tree in pre-order, switched-off namespaces included: which scopes are visited is the model's business
         cls = []
         for c in node.get("classes", []):
             if not c.get("wrap", {}).get("lua"):
                 continue
             cls.append("%d~%d@%s" % (I(c["fmtdict"].get("LUA_ctor_name", c["name"])),
                                      I("meta:" + str(c["fmtdict"].get("LUA_metadata"))), fns(c.get("functions", []), True)))
-        scopes.append("%s#%s" % (";".join(cls) or "-", fns(node.get("functions", []), False)))
+        on = depth == 0 or bool(node.get("wrap", {}).get("lua"))
+        scopes.append("%d+%d+%s#%s" % (depth, 1 if on else 0, ";".join(cls) or "-", fns(node.get("functions", []), False)))
         for ns in node.get("namespaces", []):
-            if ns.get("wrap", {}).get("lua"):
-                walk(ns)
+            walk(ns, depth + 1)
 
-    walk(j)
+    walk(j, 0)
     return "regs " + "/".join(scopes), {v: k for k, v in ids.items()}
 
 
@@ -432,6 +446,13 @@ def check_registration(ctx, lib, d, regs, modreg, drv, stats, sites):
             bad_sites.append({"class": ci["name"], "LUA_metadata of the class": ci["meta"], "model": at})
     if bad_sites or len(model_sites) != len(cinfo):
         ctx.tie_broken("lua-metatable-names", {"library": lib.name, "sites": bad_sites[:4]})
+    for node in req.split(" ", 1)[1].split("/"):
+        dpt, on, sc = node.split("+", 2)
+        cs, fs = sc.split("#")
+        kind = ("off" if on == "0" else "empty" if (cs, fs) == ("-", "-") else "classes-only" if fs == "-" else
+                "functions-only" if cs == "-" else "classes+functions")
+        k = "depth=%s %s" % (dpt, kind)
+        stats["scope_hist"][k] = stats["scope_hist"].get(k, 0) + 1
     for ci in cinfo:
         if ci["meta"] and ci["meta"] != ci["name"] + ".metatable":
             stats["custom_meta_classes"] += 1
@@ -652,7 +673,7 @@ def plan_library(r, lib, located, thorough):
     object, and on wrong objects).  Phase 3: every other constructor stack.  Phase 4: destructors."""
     plan = Plan()
     objs = {}                       # class -> (handle, library id)
-    classes = [c for c, _ in lib.classes]
+    classes = [c for c, _ in lib.all_classes()]
 
     def key_of(g):
         return g.luaname if g.kind in ("free", "ctor") else g.luaname + "@" + g.cls
@@ -688,6 +709,10 @@ def plan_library(r, lib, located, thorough):
                     res.append((vals, exp))
         return res
 
+    # a declaration wrapped for Lua that the emitted tables do not register: ask for it by name all the same
+    for g in lib.groups:
+        if key_of(g) not in located and g.kind in ("free", "ctor"):
+            plan.add("call %s" % g.luaname, dict(group=g, vals=[], selfv=None, exp=expect_call(g, []), probe=True))
     ctor_first = {}
     for g in lib.groups:
         if g.kind != "ctor" or key_of(g) not in located:
@@ -773,6 +798,11 @@ def judge(meta, ans):
     """Property C18 on one call, from the declarations only.  Returns None or (key kind, text)."""
     g = meta["group"]
     exp = meta["exp"]
+    if ans["status"] == "nofunc":
+        return ("not-registered", "%s (%s%s) is wrapped for Lua but the module does not register it: the name is nil in Lua" % (
+            g.luaname, g.scope, g.fns[0].name))
+    if meta.get("probe"):
+        return None
     if meta.get("again"):
         if ans["status"] == "ok" and not ans.get("trace") and ans.get("n") == "0" and ans.get("pushed") == "0":
             return None
@@ -866,6 +896,8 @@ def model_request(meta, classes):
 def model_vs_observed(meta, ans, mline, stack_vals):
     """Compare the Lean `run` outcome with what the compiled binding did.  None or a text."""
     g = meta["group"]
+    if meta.get("probe") or ans["status"] == "nofunc":
+        return None
     if meta.get("again"):
         return None                     # object state is not part of `run` (Lean: gc_runs_destructor_once)
     parts = mline.split(" ")
@@ -981,7 +1013,7 @@ def check_library(ctx, lib, d, emu_o, drv, r, thorough, stats, ok_lean):
                     k2 = "%s %s" % (p_.kind, cls_)
                     stats["default_hist"][k2] = stats["default_hist"].get(k2, 0) + 1
     funcs, regs, metas, modreg = split_module(text)
-    classes = [c for c, _ in lib.classes]
+    classes = [c for c, _ in lib.all_classes()]
     try:
         cinfo = class_info(os.path.join(d, lib.name + ".json"))
     except (OSError, ValueError, KeyError):
@@ -1142,7 +1174,7 @@ def run(ctx):
                        "per generated library (one fixed + seeded random): every Lua name's emitted function is parsed and compared "
                        "with the model's skeleton; the binding is compiled against the emulator and every name is called with every "
                        "offered signature, one-tag-off variants, wrong counts and random shapes (methods also with wrong objects, "
-                       "destructors twice on one object); the luaL_Reg tables are compared with the model's. "
+                       "destructors twice on one object; a wrapped name the tables do not register is asked for by name); the luaL_Reg tables are compared with the model's. "
                        "Non-trivial: a skeleton with a switch, or a call whose stack matches a signature; distinct = distinct "
                        "(kind, overload set, tag list).")
     ctx.assumptions += [
@@ -1157,7 +1189,7 @@ def run(ctx):
     ]
     check_tables_ok = None
     stats = dict(groups=0, switch=0, single=0, gen_disagree=0, run_disagree=0, calls=0, matching=0, nonmatching=0,
-                 violations=0, known=0, libraries=0, reg_tables=0, reg_entries=0, meta_sites=0, custom_meta_classes=0, empty_method_table_classes=0, gc_twice=0, class_arg_calls_right_class=0, class_arg_calls_wrong_class=0, wide_late_defaults=0, shape_hist={}, arity_hist={}, default_hist={})
+                 violations=0, known=0, libraries=0, reg_tables=0, reg_entries=0, meta_sites=0, custom_meta_classes=0, empty_method_table_classes=0, gc_twice=0, class_arg_calls_right_class=0, class_arg_calls_wrong_class=0, wide_late_defaults=0, shape_hist={}, arity_hist={}, default_hist={}, scope_hist={})
     d0 = common.scratch()
     try:
         emu_o = build_emulator(d0)
@@ -1195,6 +1227,13 @@ def run(ctx):
         ctx.tie_broken("lua-generator", "default values do not cover zero/non-zero for every kind: %s" % stats["default_hist"])
     if stats["libraries"] and not (stats["class_arg_calls_right_class"] and stats["class_arg_calls_wrong_class"]):
         ctx.tie_broken("lua-generator", "no call with a class-pointer argument (right and wrong class) was driven")
+    sh = stats["scope_hist"]
+    if stats["libraries"] and not (any(k.startswith("depth=0 ") and ("classes-only" in k or "empty" in k) for k in sh)
+                                   and any("empty" in k and not k.startswith("depth=0") for k in sh)
+                                   and any("classes-only" in k and not k.startswith("depth=0") for k in sh)
+                                   and any(k.startswith(("depth=3", "depth=4")) for k in sh)):
+        ctx.tie_broken("lua-generator", "namespace trees lack a shape (library without functions, empty / classes-only "
+                                        "namespace, depth >= 3): %s" % sh)
     if stats["libraries"] and not (stats["custom_meta_classes"] and stats["empty_method_table_classes"]):
         ctx.tie_broken("lua-generator", "no class with a user-chosen metatable name / with an empty method table was generated")
     if stats["libraries"] and stats["wide_late_defaults"] == 0:
